@@ -88,24 +88,16 @@ impl Rational {
 
     /// Round this rational to its floor.
     pub fn floor(&self) -> Rational {
-        let rational = if self.rational.denom().is_one() {
-            self.rational.clone()
-        } else {
-            self.rational.trunc()
-        };
-
-        Self { rational }
+        Self {
+            rational: self.rational.floor(),
+        }
     }
 
     /// Round this rational to its ceilting.
     pub fn ceil(&self) -> Rational {
-        let rational = if self.rational.denom().is_one() {
-            self.rational.clone()
-        } else {
-            (self.rational.clone() + BigRational::one()).trunc()
-        };
-
-        Self { rational }
+        Self {
+            rational: self.rational.ceil(),
+        }
     }
 }
 
